@@ -92,10 +92,21 @@ def needs_observed_items(prog):
     return any(st[0] == "cancelbatch" for node in prog["nodes"] for st in lang.iter_stmts(node["body"]))
 
 
+ACTIVITY = [0]
+
+
+def tick():
+    """One more bounded piece of work (a program run, a sequence, a cell) was completed: the worker's
+    no-progress watchdog only fires when this counter stands still."""
+    ACTIVITY[0] += 1
+
+
 def execute(prog, how, pol, seed, monitors, rrt_exp=None, fresh_scheduler=True):
     """Run one program once on asynq with the requested monitors installed.
     Returns (rt, out, exp, rrt)."""
     from . import harness, monitors as M
+
+    tick()
 
     rt = harness.HarnessRT(prog, prio=pol, seed=seed)
     book = None
